@@ -35,6 +35,10 @@ pub enum Ev {
     Save { path: String },
     /// The 1000 ms idle timer fires before the next message.
     Idle,
+    /// A notification every editor sends and this server has no handler for (`didSave`,
+    /// `$/cancelRequest`, `$/setTrace`, `didChangeWatchedFiles`, `didChangeConfiguration`):
+    /// nothing may change.
+    Noise { kind: u8 },
     /// The client stops waiting: up to `n` of the following notifications and requests reach
     /// the server's inbox before the server gets to run (anything else ends the burst early).
     Burst { n: u8 },
@@ -831,7 +835,7 @@ impl<'w> Exec<'w> {
             return;
         }
         let pre_client = self.client.clone();
-        if (self.burst_left > 0 || !self.pending_reqs.is_empty()) && !matches!(ev, Ev::Open { .. } | Ev::Change { .. } | Ev::Close { .. } | Ev::Request { .. }) {
+        if (self.burst_left > 0 || !self.pending_reqs.is_empty()) && !matches!(ev, Ev::Open { .. } | Ev::Change { .. } | Ev::Close { .. } | Ev::Request { .. } | Ev::Noise { .. }) {
             // only plain notifications and requests travel in a burst
             self.release(at, ev, &pre_client);
             if self.violation.is_some() || self.discarded.is_some() {
@@ -928,8 +932,22 @@ impl<'w> Exec<'w> {
                     self.client.disk.insert(path.clone(), buf.clone());
                     self.world.write(path, buf);
                     self.stats.probe("save");
+                    // ... and tells the server, as editors do (it has no handler for it)
+                    let uri = self.world.uri(path);
+                    self.peer.notify("textDocument/didSave", json!({"textDocument": {"uri": uri}}));
                 }
                 sent = false;
+            }
+            Ev::Noise { kind } => {
+                let (method, params) = match kind % 5 {
+                    0 => ("textDocument/didSave", json!({"textDocument": {"uri": self.world.uri("main.oal")}})),
+                    1 => ("$/cancelRequest", json!({"id": self.peer.next_id - 1})),
+                    2 => ("$/setTrace", json!({"value": "off"})),
+                    3 => ("workspace/didChangeWatchedFiles", json!({"changes": []})),
+                    _ => ("workspace/didChangeConfiguration", json!({"settings": {}})),
+                };
+                self.stats.probe("notification_without_a_handler");
+                self.peer.notify(method, params);
             }
             Ev::Burst { n } => {
                 sent = false;
@@ -1284,6 +1302,7 @@ pub fn ev_name(ev: &Ev) -> &'static str {
         Ev::Save { .. } => "S",
         Ev::Idle => "T",
         Ev::Burst { .. } => "B",
+        Ev::Noise { .. } => "N",
         Ev::Request { kind, .. } => match kind {
             ReqKind::Definition => "Qd",
             ReqKind::References => "Qr",
